@@ -4,6 +4,7 @@ pub mod chainequiv;
 pub mod deadlines;
 pub mod model;
 pub mod monitors;
+pub mod asyncshadow;
 pub mod mupshadow;
 pub mod node;
 pub mod onchain;
